@@ -202,6 +202,9 @@ macro_rules! bodies {
             /// sign(total) * floor(closed_tokens * |total| / tokens) with total = +-(tokens*price - size),
             /// the price picked against the trader (min for longs, max for shorts).
             pub fn pnl_uncapped_exact() {
+                pnl_uncapped_exact_mode(0)
+            }
+            pub fn pnl_uncapped_exact_mode(mode: u8) {
                 let pos = any_position(pnl_market(false));
                 let prices: Prices<T> = any_prices(false);
                 let delta: T = kani::any();
@@ -214,7 +217,8 @@ macro_rules! bodies {
                     let total: RS = if pos.is_long { value as RS - size as RS } else { size as RS - value as RS };
                     assert!(*pnl == *uncapped, "C11: pnl differs from the uncapped pnl although the trader cap cannot bind");
                     // closed tokens: all on a full close, else ceil (long) / floor (short) of tokens*delta/size
-                    if u(delta) == size {
+                    if mode == 2 {
+                    } else if u(delta) == size {
                         assert!(u(*closed) == tokens, "C11: a full close does not close every token");
                     } else if pos.is_long {
                         assert!(is_ceil_div(u(*closed), tokens * u(delta), size), "C11: closed tokens of a long are not ceil(tokens*delta/size)");
@@ -222,14 +226,16 @@ macro_rules! bodies {
                         assert!(is_floor_div(u(*closed), tokens * u(delta), size), "C11: closed tokens of a short are not floor(tokens*delta/size)");
                     }
                     let tm = total.unsigned_abs() as R;
-                    assert!(is_floor_div(pnl.unsigned_abs() as R, u(*closed) * tm, tokens), "C11: |pnl| is not floor(closed_tokens * |total pnl| / tokens)");
+                    if mode != 1 {
+                        assert!(is_floor_div(pnl.unsigned_abs() as R, u(*closed) * tm, tokens), "C11: |pnl| is not floor(closed_tokens * |total pnl| / tokens)");
+                    }
                     assert!(*pnl == 0 || (*pnl > 0) == (total > 0), "C11: pnl has the wrong sign");
                     kani::cover!(pos.is_long && *pnl > 1 && u(*closed) < tokens, "long profit, partial close");
                     kani::cover!(pos.is_long && *pnl < -1, "long loss");
                     kani::cover!(!pos.is_long && *pnl > 1, "short profit");
                     kani::cover!(!pos.is_long && *pnl < -1 && u(*closed) < tokens, "short loss, partial close");
                     kani::cover!(u(prices.index_token_price.min) < u(prices.index_token_price.max) && *pnl != 0, "spread");
-                } else {
+                } else if mode == 0 || mode == 3 {
                     // failure only from representability: position value, closed tokens, or the scaled pnl
                     let p = tokens * u(delta);
                     let closed_fails = u(delta) != size && (size == 0 || (pos.is_long && p > TMAX * size) || (!pos.is_long && p >= (TMAX + 1) * size));
@@ -563,6 +569,14 @@ fn probe_c11_sdt_u8() {
     w8n::size_delta_in_tokens();
 }
 #[kani::proof]
-fn probe_c11_unc_u8n() {
-    w8n::pnl_uncapped_exact();
+fn probe_c11_unc_m1() {
+    w8::pnl_uncapped_exact_mode(1);
+}
+#[kani::proof]
+fn probe_c11_unc_m2() {
+    w8::pnl_uncapped_exact_mode(2);
+}
+#[kani::proof]
+fn probe_c11_unc_m3() {
+    w8::pnl_uncapped_exact_mode(3);
 }
